@@ -1,4 +1,5 @@
 import Driver.Resolve
+import Driver.Finger
 /-! Line protocol: `<op> <tok>*` in, one line out (`bad-op` for anything not understood). -/
 open Driver
 
@@ -8,6 +9,7 @@ def dispatch (line : String) : String :=
   | op :: args =>
     let r :=
       if op.startsWith "resolve." then Driver.Resolve.handle op args
+      else if op.startsWith "finger." then Driver.Finger.handle op args
       else none
     r.getD "bad-op"
 
